@@ -4,9 +4,10 @@
 
    The wrapper models (Model/WrapModel.v) are per-row transcriptions of the BHJM_* functions; the theorems hold
    for EVERY core function, EVERY value of the tolerance literals (class Tols), every mu0 <> 0 and every row, in
-   ANY field with Leibniz equality whose boolean tests are sound (instances: Qc below; R).  Where the faithful
-   model violates the property the theorem carries the exact exclusion and a `_refuted` theorem exhibits the
-   violating row at the SOURCE's tolerances and constants (Gen/GenWrapTol.v, Gen/GenConst.v). *)
+   ANY field with Leibniz equality whose boolean tests are sound (instances: Qc below; R).  The models follow the
+   code after the repairs 41540a4 (Cylinder edge), 77d60b2 (CylinderSegment surface), 99f877e (Tetrahedron one mask),
+   so no theorem about the field outputs carries an exclusion any more.  The one remaining `_refuted` theorem is
+   about the SOURCE's constants (Gen/GenConst.v): the setters' constant is not magpylib.mu_0. *)
 From Coq Require Import List Bool ZArith QArith Qcanon Field.
 From MV Require Import Gen.GenConst Gen.GenWrapTol Model.WrapModel Model.WrapExec Model.WrapSrc
                        Proofs.WrapProofs Proofs.WrapWitness Proofs.WrapGroup.
@@ -33,70 +34,50 @@ Theorem C02_cuboid : forall (core : cub_row -> vec) (r : cub_row),
          (bhjm_cuboid core mu0 FM r) (cu_pol r) (cub_inside r).
 Proof. exact (cuboid_full Fth mu0 mu0_nz). Qed.
 
-(* Cylinder: everywhere except at edge points of a polarized body (see C02_cylinder_edge_refuted) *)
-Theorem C02_cylinder_partial : forall (tv ax : F -> F -> F -> cyl_row -> vec) (r : cyl_row),
-  cyl_on_edge r = false \/ cy_pol r = vzero \/ cyl_inside0 r = false ->
+(* Cylinder: every row, the edge included (there B = H = J = M = 0); the J / M mask is the closed body minus the edge *)
+Theorem C02_cylinder : forall (tv ax : F -> F -> F -> cyl_row -> vec) (r : cyl_row),
   magnet (bhjm_cylinder tv ax mu0 FB r) (bhjm_cylinder tv ax mu0 FH r) (bhjm_cylinder tv ax mu0 FJ r)
-         (bhjm_cylinder tv ax mu0 FM r) (cy_pol r) (cyl_inside0 r).
+         (bhjm_cylinder tv ax mu0 FM r) (cy_pol r) (cyl_inside0 r && negb (cyl_on_edge r)).
 Proof. exact (cylinder_full Fth feqb_eq mu0 mu0_nz). Qed.
-
-Theorem C02_cylinder_JM : forall (tv ax : F -> F -> F -> cyl_row -> vec) (r : cyl_row),
-  let j := bhjm_cylinder tv ax mu0 FJ r in
-  j = vmuls (bhjm_cylinder tv ax mu0 FM r) mu0 /\ j = vsel (cyl_inside0 r) (cy_pol r) /\
-  (j = cy_pol r \/ j = vzero) /\ (cy_pol r <> vzero -> (j = cy_pol r <-> cyl_inside0 r = true)).
-Proof. exact (cylinder_JM_full Fth mu0 mu0_nz). Qed.
 
 (* CylinderSegment: a batch is computed row by row given ONE batch-level flag (is any row off the surface?) *)
 Theorem C02_segment_batch_is_rowwise : forall (core : seg_row -> vec) (f : fld) (rows : list seg_row),
   bhjm_seg_batch core mu0 f rows = map (bhjm_seg_row core mu0 f (existsb seg_not_on_surf rows)) rows.
 Proof. exact (fun core f rows => eq_refl). Qed.
 
-(* flag = true: everywhere except at surface points of a polarized body (see C02_segment_surface_refuted) *)
-Theorem C02_segment_partial : forall (core : seg_row -> vec) (r : seg_row),
-  seg_not_on_surf r = true \/ seg_inside r = false \/ cs_pol r = vzero ->
-  magnet (bhjm_seg_row core mu0 FB true r) (bhjm_seg_row core mu0 FH true r) (bhjm_seg_row core mu0 FJ true r)
-         (bhjm_seg_row core mu0 FM true r) (cs_pol r) (seg_inside r).
-Proof. exact (seg_row_full Fth mu0 mu0_nz). Qed.
-
-(* flag = false (every row of the batch on a surface): all outputs are zero *)
-Theorem C02_segment_all_on_surface : forall (core : seg_row -> vec) (r : seg_row),
-  let out f := bhjm_seg_row core mu0 f false r in
-  out FB = vadd (vmuls (out FH) mu0) (out FJ) /\ out FJ = vmuls (out FM) mu0 /\ out FJ = vzero.
-Proof. exact (seg_row_all_surface Fth mu0). Qed.
-
-Theorem C02_segment_JM : forall (core : seg_row -> vec) (a : bool) (r : seg_row),
-  bhjm_seg_row core mu0 FJ a r = vmuls (bhjm_seg_row core mu0 FM a r) mu0.
-Proof. exact (seg_row_JM Fth mu0 mu0_nz). Qed.
+(* ... and every row r of EVERY batch (the all-on-surface exit included) satisfies the property with the mask
+   "inside the tolerance body and off its surface" -- which does not depend on the other rows of the batch *)
+Theorem C02_segment : forall (core : seg_row -> vec) (rows : list seg_row) (r : seg_row), In r rows ->
+  let out f := bhjm_seg_row core mu0 f (existsb seg_not_on_surf rows) r in
+  magnet (out FB) (out FH) (out FJ) (out FM) (cs_pol r) (seg_inside r && seg_not_on_surf r).
+Proof. exact (seg_batch_full Fth mu0 mu0_nz). Qed.
 
 (* BHJM_cylinder_segment_internal (object interface): segments as above, 360-degree sections as
-   Cylinder(r2) - Cylinder(r1); B = mu0*H + J under the exclusions of the parts; J = mu0*M always *)
-Theorem C02_segment_internal_partial :
-  forall (core : seg_row -> vec) (tv ax : F -> F -> F -> cyl_row -> vec) (a : bool) (r : seg_row),
-  (if seg_is_segment r
-   then seg_not_on_surf r = true \/ seg_inside r = false \/ cs_pol r = vzero
-   else (cyl_on_edge (seg_as_cyl r (cs_r2 r)) = false \/ cs_pol r = vzero \/ cyl_inside0 (seg_as_cyl r (cs_r2 r)) = false)
-        /\ (fneqb (cs_r1 r) f0 = true ->
-            cyl_on_edge (seg_as_cyl r (cs_r1 r)) = false \/ cs_pol r = vzero \/ cyl_inside0 (seg_as_cyl r (cs_r1 r)) = false)) ->
-  bhjm_seg_internal_row core tv ax mu0 FB a r =
-  vadd (vmuls (bhjm_seg_internal_row core tv ax mu0 FH a r) mu0) (bhjm_seg_internal_row core tv ax mu0 FJ a r).
-Proof. exact (seg_internal_row_BHJ Fth feqb_eq mu0 mu0_nz). Qed.
+   Cylinder(r2) - Cylinder(r1); every row, either value of the batch flag *)
+Theorem C02_segment_internal_batch_is_rowwise :
+  forall (core : seg_row -> vec) (tv ax : F -> F -> F -> cyl_row -> vec) (f : fld) (rows : list seg_row),
+  bhjm_seg_internal_batch core tv ax mu0 f rows =
+  map (bhjm_seg_internal_row core tv ax mu0 f (existsb seg_not_on_surf (filter seg_is_segment rows))) rows.
+Proof. exact (fun core tv ax f rows => eq_refl). Qed.
 
-Theorem C02_segment_internal_JM :
+Theorem C02_segment_internal :
   forall (core : seg_row -> vec) (tv ax : F -> F -> F -> cyl_row -> vec) (a : bool) (r : seg_row),
-  bhjm_seg_internal_row core tv ax mu0 FJ a r = vmuls (bhjm_seg_internal_row core tv ax mu0 FM a r) mu0.
-Proof. exact (seg_internal_row_JM Fth mu0 mu0_nz). Qed.
+  let out f := bhjm_seg_internal_row core tv ax mu0 f a r in
+  out FB = vadd (vmuls (out FH) mu0) (out FJ) /\ out FJ = vmuls (out FM) mu0.
+Proof. exact (seg_internal_row_full Fth feqb_eq mu0 mu0_nz). Qed.
 
 Theorem C02_sphere : forall r : sph_row,
   magnet (bhjm_sphere mu0 FB r) (bhjm_sphere mu0 FH r) (bhjm_sphere mu0 FJ r) (bhjm_sphere mu0 FM r)
          (sp_pol r) (negb (sph_out r)).
 Proof. exact (sphere_full Fth mu0 mu0_nz). Qed.
 
-(* Tetrahedron: J tests the vertices as given, B those re-ordered by check_chirality -- the same mask *)
+(* Tetrahedron: B, J and M all use the mask of the vertices as given (commit 99f877e) *)
 Theorem C02_tetrahedron : forall (core : tri_row -> vec) (io : inout) (r : tet_row),
   magnet (bhjm_tetrahedron core mu0 io FB r) (bhjm_tetrahedron core mu0 io FH r)
          (bhjm_tetrahedron core mu0 io FJ r) (bhjm_tetrahedron core mu0 io FM r) (te_pol r) (tet_inside io r).
-Proof. exact (tetrahedron_full Fth fltb_irrefl mu0 mu0_nz). Qed.
+Proof. exact (tetrahedron_full Fth mu0 mu0_nz). Qed.
 
+(* (in exact arithmetic the mask of the re-ordered vertices would be the same; in binary64 it was not, see known findings) *)
 Theorem C02_tetrahedron_mask_chirality : forall (io : inout) (r : tet_row),
   tet_inside io (chirality r) = tet_inside io r.
 Proof. exact (tet_inside_chirality Fth fltb_irrefl). Qed.
@@ -138,14 +119,11 @@ Proof. exact (exc_run_sync Fth mu0 mu0_nz). Qed.
 End AnyField.
 
 Print Assumptions C02_cuboid.
-Print Assumptions C02_cylinder_partial.
-Print Assumptions C02_cylinder_JM.
+Print Assumptions C02_cylinder.
 Print Assumptions C02_segment_batch_is_rowwise.
-Print Assumptions C02_segment_partial.
-Print Assumptions C02_segment_all_on_surface.
-Print Assumptions C02_segment_JM.
-Print Assumptions C02_segment_internal_partial.
-Print Assumptions C02_segment_internal_JM.
+Print Assumptions C02_segment.
+Print Assumptions C02_segment_internal_batch_is_rowwise.
+Print Assumptions C02_segment_internal.
 Print Assumptions C02_sphere.
 Print Assumptions C02_tetrahedron.
 Print Assumptions C02_tetrahedron_mask_chirality.
@@ -177,6 +155,16 @@ Proof. exact use_sites_single. Qed.
 (* the two setters use one constant, and it is not zero: C02_attr_sync applies with c = that constant *)
 Theorem C02_setters_one_constant : c_setter_mag = c_setter_pol /\ c_setter_mag <> 0%Qc.
 Proof. exact (conj setters_agree setter_nz). Qed.
+(* inventory of constant expressions that are numerically mu_0 or 1/mu_0 without going through the name: the two
+   setter sites, the factor 1/(4*pi*1e-7) inside current_circle_Hfield and `1e-7 / MU0` inside
+   magnet_cylinder_segment_Hfield -- nothing else anywhere in the package *)
+Theorem C02_literal_inventory :
+  length mu0_literal_sites = 1%nat /\ length inv_mu0_literal_sites = 2%nat /\ length mu0_mixed_sites = 1%nat /\
+  forallb (fun sq => Qeq_bool (snd sq) mu0_setter_magnetization) mu0_literal_sites = true /\
+  forallb (fun sq => near_one (snd sq * mu0_setter_magnetization) (1 # 1000000000000000)) inv_mu0_literal_sites = true /\
+  forallb (fun sq => near_one (snd sq * four_pi_b64) (2 # 10000000000)) mu0_mixed_sites = true.
+Proof. exact literal_inventory. Qed.
+Print Assumptions C02_literal_inventory.
 Print Assumptions C02_single_mu0_names.
 Print Assumptions C02_single_mu0_uses.
 Print Assumptions C02_setters_one_constant.
@@ -190,36 +178,19 @@ Theorem C02_attr_sync_refuted :
 Proof. exact (conj setter_constant_differs attr_sync_violates). Qed.
 Print Assumptions C02_attr_sync_refuted.
 
-(* Cylinder d = 2, h = 2, pol = (0,0,1), observer (1, 0, 1) on the edge: B = H = 0, J = pol *)
-Theorem C02_cylinder_edge_refuted :
-  cyl_on_edge w_cyl_edge = true /\ cyl_inside0 w_cyl_edge = true /\
-  bhjm_cylinder stub_cyl_tv stub_cyl_ax mu0_src FB w_cyl_edge <>
-  vadd (vmuls (bhjm_cylinder stub_cyl_tv stub_cyl_ax mu0_src FH w_cyl_edge) mu0_src)
-       (bhjm_cylinder stub_cyl_tv stub_cyl_ax mu0_src FJ w_cyl_edge).
-Proof. exact (conj (proj1 w_cyl_edge_on_edge) (conj (proj2 w_cyl_edge_on_edge) cylinder_edge_violates)). Qed.
-Print Assumptions C02_cylinder_edge_refuted.
-
-(* CylinderSegment, observer on the outer shell, in one batch with an off-surface observer: B = H = 0, J = pol;
-   alone in its batch the same row has J = 0 *)
-Theorem C02_segment_surface_refuted :
-  (let out f := nth 0 (bhjm_seg_batch (stub_seg mu0_src) mu0_src f [w_seg_on; w_seg_off]) vzero in
-   out FB <> vadd (vmuls (out FH) mu0_src) (out FJ)) /\
-  nth 0 (bhjm_seg_batch (stub_seg mu0_src) mu0_src FJ [w_seg_on]) vzero <>
-  nth 0 (bhjm_seg_batch (stub_seg mu0_src) mu0_src FJ [w_seg_on; w_seg_off]) vzero.
-Proof. exact (conj segment_surface_violates segment_surface_batch_dependent). Qed.
-Print Assumptions C02_segment_surface_refuted.
-
 (* ------------------------------------------------------------------ non-vacuity: Qc (with the source's tolerances and
    constants) meets every hypothesis of the section, and the exclusions are satisfiable *)
 Example C02_nonvacuous :
   field_theory (@f0 QcOps) f1 fadd fmul fsub fopp fdiv finv (@eq Qc) /\
   (forall x y : Qc, feqb x y = true -> x = y) /\ (forall x : Qc, fltb x x = false) /\
   mu0_src <> 0%Qc /\ mu0_stub <> 0%Qc /\
-  cyl_on_edge (T := SrcTols) {| cy_r := q 1 2; cy_c := z 1; cy_s := z 0; cy_z := z 0; cy_d := z 2; cy_h := z 2;
-                               cy_pol := (z 0, z 0, z 1); cy_pxy := z 0; cy_dphi := z 0 |} = false /\
-  seg_not_on_surf (T := SrcTols) w_seg_off = true.
+  (* the special sets are inhabited at the source's tolerances: a Cylinder edge row, a segment shell row *)
+  cyl_on_edge (T := SrcTols) w_cyl_edge = true /\ cyl_inside0 w_cyl_edge = true /\
+  seg_not_on_surf (T := SrcTols) w_seg_on = false /\ seg_inside (T := SrcTols) w_seg_on = true /\
+  In w_seg_on [w_seg_on; w_seg_off].
 Proof.
   split; [exact Qc_field|]. split; [exact Qc_feqb_eq|]. split; [exact Qc_fltb_irrefl|].
-  split; [exact mu0_src_nz|]. split; [exact mu0_stub_nz|]. split; vm_compute; reflexivity.
+  split; [exact mu0_src_nz|]. split; [exact mu0_stub_nz|].
+  repeat split; try (vm_compute; reflexivity). left. reflexivity.
 Qed.
 Print Assumptions C02_nonvacuous.
